@@ -454,7 +454,7 @@ SPECS["C19"] = {
     "outside": ["concurrent senders and real goroutine interleavings", "the 20 s per-event timeout context (modelled as a context that is never cancelled)"],
     "assumptions": STUBS_COMMON + [PF_STUB, TIME_MODEL, "context.WithTimeout/WithDeadline return a cancellable context whose deadline never fires"],
     "jobs": [
-        {"pkg": "./pkg/statsd", "harness": "pkg/statsd", "mode": "machine",
+        {"pkg": "./pkg/statsd", "harness": "pkg/statsd", "mode": "machine", "blocked_is_violation": True,
          "entries": {"quick": ["VerifC19_0", "VerifC19_1", "VerifC19_2", "VerifC19_3", "VerifC19_Twin"]},
          "reach": {"VerifC19_2": ["after-lookup", "cache-hit", "delivered"]},
          "twin": {"VerifC19_Twin": True},
@@ -489,7 +489,7 @@ SPECS["C17"] = {
         {"pkg": "./pkg/statsd", "harness": "pkg/statsd", "mode": "machine", "workers": 8,
          "entries": {"quick": ["VerifC17_EventViaParser"]}, "reach": {"*": ["via-parser"]}, "limits": {"quick": {"timeout": "600s"}}},
         {"pkg": "./pkg/backends/influxdb", "harness": "pkg/backends/influxdb", "mode": "machine",
-         "entries": {"quick": ["VerifC17_Escape1", "VerifC17_Escape2", "VerifC17_InfluxBatches"], "thorough": ["VerifC17_Escape1", "VerifC17_Escape2", "VerifC17_Escape3", "VerifC17_InfluxBatches"]},
+         "entries": {"quick": ["VerifC17_Escape1", "VerifC17_Escape2", "VerifC17_InfluxBatches", "VerifC17_InfluxTags"], "thorough": ["VerifC17_Escape1", "VerifC17_Escape2", "VerifC17_Escape3", "VerifC17_InfluxBatches", "VerifC17_InfluxTags"]},
          "reach": {"VerifC17_Escape2": ["escaped"], "VerifC17_InfluxBatches": ["batched"]},
          "limits": {"quick": {"timeout": "600s"}, "thorough": {"timeout": "1800s"}}},
         {"pkg": "./pkg/backends/datadog", "harness": "pkg/backends/datadog", "mode": "machine", "workers": 8,
